@@ -571,6 +571,10 @@ func TestScratch(t *testing.T) {
 		kit.Opt{MinChecks: 2, HangAfter: 20 * time.Minute},
 		func(rt *rapid.T, rec *kit.Rec) {
 			src, labels := gomspec.DrawValueSource(rt)
+			if strings.Contains(src, "\"scratch/as\"") {
+				// the package uses a type of the user package that is itself called `as`
+				env.extra = map[string]string{"as/as.go": gomspec.UserAsSource}
+			}
 			env.decide(rt, rec, "C13|scratch-value-grammar", src, func() {
 				for _, l := range labels {
 					rec.Label(l)
